@@ -243,7 +243,86 @@ def plan(src, napps=2):
     src.reach('planned')
 
 
+INITIAL = {'stopped': PS.STOPPED, 'running': PS.RUNNING, 'fatal': PS.FATAL, 'crashed': PS.EXITED}
+
+
+class SelectionMonitor(Monitor):
+    """only the clauses that do not depend on what the applications were doing before the sequence"""
+
+    def on_request(self, kind, ident, ns):
+        src = self.src
+        if kind == 'stop':
+            return
+        me = self.procs[ns]
+        app = me['app']
+        sig = f"pseq={me['seq']}:aseq={self.apps[app]['seq']}:app-state={self.apps[app]['initial']}"
+        src.check('sequence-zero-process-never-started', me['seq'] > 0, sig=sig, namespec=ns)
+        src.check('sequence-zero-application-never-started', self.apps[app]['seq'] > 0, sig=sig, namespec=ns)
+        src.check('running-process-not-requested', me['initial'] != 'running', sig=sig, namespec=ns)
+        src.check('not-requested-twice', self.status[ns] == 'idle', sig=sig, namespec=ns, status=self.status[ns])
+        self.status[ns] = 'requested'
+
+
+@rigged
+def selection(src, napps=2, nprocs=2, rounds=5):
+    """H03c: which applications and processes an automatic sequence (real Starter.start_applications, the entry point
+    of the Master's distribution and of restart_sequence) starts when the applications are not all freshly stopped:
+    processes already running, FATAL or crashed, required or not - so applications never started, running, in minor or
+    in major failure"""
+    core = FC.operational(2)
+    ids = core.ids
+    sim = Sim(core)
+    procs, apps, beh = {}, {}, {}
+    for a in range(napps):
+        app_name = f'app{a}'
+        states = []
+        for k in range(nprocs):
+            name = f'p{k}'
+            init = src.pick(f'{app_name}_{name}_initial', list(INITIAL))
+            states.append(init)
+            core.add_process(ids[0], app_name, name, INITIAL[init], startsecs=0,
+                             spawnerr='failed' if init == 'fatal' else '', expected=init != 'crashed',
+                             start=0 if init == 'stopped' else 900, stop=0 if init in ('stopped', 'running') else 950,
+                             pid=0 if init != 'running' else 10 + k)
+            p = core.context.applications[app_name].processes[name]
+            seq = src.pick(f'{app_name}_{name}_seq', [0, 1])
+            req = seq > 0 and src.pick_flag(f'{app_name}_{name}_required')
+            adapter.set_rules(p.rules, start_sequence=seq, required=req)
+            ns = f'{app_name}:{name}'
+            procs[ns] = {'app': app_name, 'seq': seq, 'wait_exit': False, 'required': req, 'host': ids[0],
+                         'initial': init}
+            beh[ns] = 'ok'
+        aseq = src.pick(f'{app_name}_seq', [0, 1])
+        adapter.set_rules(core.context.applications[app_name].rules, managed=True, start_sequence=aseq)
+        apps[app_name] = {'seq': aseq, 'sfs': 'ABORT', 'initial': '+'.join(sorted(set(states)))}
+    core.finalize_rules()
+    for app_name in apps:
+        app = core.context.applications[app_name]
+        if app.minor_failure:
+            src.reach('minor-failure')
+        if app.major_failure:
+            src.reach('major-failure')
+    mon = SelectionMonitor(src, procs, apps)
+    core.rpc_handler.out.clear()
+    cursor = [0]
+    core.starter.start_applications()
+    for r in range(rounds):
+        _drain(core, sim, mon, cursor, beh, [])
+        FC.cluster_round(core)
+    _drain(core, sim, mon, cursor, beh, [])
+    src.reach('ran')
+    if any(s != 'idle' for s in mon.status.values()):
+        src.reach('something-started')
+    src.check('starter-idle-at-the-end', not core.starter.in_progress(), sig='end', status=mon.status)
+    src.check('no-internal-error', not core.logger.tracebacks(), log=core.logger.tracebacks()[:1])
+    src.obs('status', dict(mon.status))
+
+
 HARNESSES = [
+    Harness('H03c', selection, quick={'napps': 2}, thorough={'napps': 2, 'nprocs': 3},
+            reach=('ran', 'something-started', 'minor-failure', 'major-failure'), timeout=(100, 900),
+            doc='automatic sequence over applications already running / in minor / in major failure: sequence 0 is '
+                'never started, running processes are not requested'),
     Harness('H03a', plan, quick={'napps': 2}, thorough={'napps': 2}, reach=('planned',), timeout=(60, 120),
             doc='applications / processes with start_sequence 0 never enter the plan; ranks are the rules'),
     Harness('H03b', run, quick={'napps': 1, 'nprocs': 2}, thorough={'napps': 1, 'nprocs': 3},
